@@ -146,9 +146,10 @@ Proof.
 Qed.
 
 (* a unit that fits a packet together with its DONL: no fragmentation *)
-(* the fits test of the payloader asks for zlen n + 4 <= mtu; a unit one byte longer goes to the
-   fragmentation branch, where its payload fills exactly one fragment and it is sent whole (repair D12) *)
-Definition unit_fits (mtu : Z) (n : list Z) : Prop := valid_nal5 n /\ zlen n + 3 <= mtu /\ zlen n < 65536.
+(* the fits test of the payloader asks for zlen n + 4 <= mtu; a unit one or two bytes longer goes to the
+   fragmentation branch, where it is sent whole because it fits a single NAL unit packet together with
+   its DONL (repairs D12 and D28) *)
+Definition unit_fits (mtu : Z) (n : list Z) : Prop := valid_nal5 n /\ zlen n + 2 <= mtu /\ zlen n < 65536.
 
 Lemma nalu_reassembles_d mtu st b n : 4 <= mtu -> st_ok st -> buf_ok mtu true b -> buf_units_ok b ->
   unit_fits mtu n ->
@@ -162,12 +163,13 @@ Proof.
   intros Hm Hst Hb Hu (Hv & Hfit & Hlen). pose proof (valid_nal5_len n Hv) as H3. pose proof Hst as [Hd Hdv].
   unfold h5_nalu. rewrite Hd. replace (zlen n <? 2) with false by lia.
   destruct (zlen n + 2 + 2 <=? mtu) eqn:Efit4.
-  2: { (* zlen n + 3 = mtu: the fragmentation branch sends the unit whole, DONL behind the payload header *)
+  2: { (* mtu - 3 <= zlen n <= mtu - 2: the fragmentation branch sends the unit whole, DONL behind the payload header *)
     destruct (flush_reassembles_d mtu st b Hst Hb Hu) as (st1 & fs1 & pk1 & Hfl & Hst1 & Hsk1 & Hp1 & Hq1 & Hr1).
     destruct n as [|h0 [|h1 body]]; try contradiction.
     rewrite !zlen_cons in *. pose proof (zlen_nonneg body) as Hb0.
-    replace ((mtu - (3 + 2) <=? 0) || (zlen body =? 0)) with false by lia.
-    rewrite Hfl. replace (zlen body <=? mtu - (3 + 2)) with true by lia.
+    replace (zlen body =? 0) with false by lia.
+    replace (zlen body <=? mtu - (3 + 2) + 1) with true by lia.
+    rewrite Hfl.
     unfold h5_flush at 1. cbn [hb_nalus]. destruct Hst1 as [Hd1 Hdv1]. rewrite Hd1.
     eexists. exists (mkH5Buf [] 0), (fs1 ++ [Own (h0 :: h1 :: put16 (h5_donl st1) ++ body)]),
       (pk1 ++ [PSingle (Z.lor (Z.shiftl h0 8) h1) (Some (h5_donl st1)) body]), (hb_nalus b ++ [h0 :: h1 :: body]).
